@@ -56,6 +56,7 @@ fn std(
 
 fn cfg_alt_layout(keys: Vec<Vec<u8>>) -> TreeCfg {
     let mut c = TreeCfg::small(keys);
+    c.lz4 = true;
     c.block_size = 4096;
     c.hash_ratio = 8.0;
     c.index_partitioning = true;
@@ -642,7 +643,12 @@ pub fn scenarios(prop: &str, tier: &str) -> Vec<Arc<dyn Scenario>> {
                 // no block / blob cache: nothing read earlier can hide a pointer that resolves wrongly
                 let mut cr = mk(16, 64 << 20, 0.0, 1.0);
                 cr.cache_bytes = 0;
-                push(format!("{prop}-relocating"), cr, &ar, bd, vec![vec![]]);
+                push(format!("{prop}-relocating"), cr.clone(), &ar, bd, vec![vec![]]);
+                // the same with lz4-compressed blobs, data and index blocks
+                let mut cl = cr.clone();
+                cl.lz4 = true;
+                cl.block_size = 4096;
+                push(format!("{prop}-relocating-lz4"), cl, &ar, bd, vec![vec![]]);
             }
             if quick {
                 push(format!("{prop}-t16-default"), mk(16, 64 << 20, 0.25, 0.25), &a, bs(2, 2, 1, 1, 1), vec![vec![]]);
